@@ -69,7 +69,7 @@ class Ctx:
 
     # ---- heap
     def _resolve(self, path, heap):
-        ref = self.self_ref
+        ref = self.self_ref if self.self_ref is not None else self.st.ghost.get("$root")
         parts = path.split(".")
         for p in parts[:-1]:
             ref = self.eng.heap_read(self.st, ref, p, heap=heap)
@@ -275,6 +275,11 @@ class Engine:
             if top is None and self.src.has_module(f"{m}.{n}"):
                 return ModVal(f"{m}.{n}")
             if top is not None:
+                valnode = getattr(top, "value", None)
+                if isinstance(valnode, ast.Constant) and isinstance(valnode.value, (int, float, str, bool)) or \
+                        (isinstance(valnode, ast.UnaryOp) and isinstance(valnode.operand, ast.Constant)):
+                    res = self.eval(valnode, State())   # literal module constant: its value is the literal in the source
+                    return res[0][2]
                 raise Unsupported(f"module constant {key} has no native model")
         if m in ("time",) and n == "time":
             return BuiltinVal("time")
@@ -771,6 +776,40 @@ class Engine:
                 s.assume(z3.ForAll([yq], z3.Implies(z3.Select(dst_set, yq), z3.Exists([xq], z3.And(z3.Select(src_set, xq), elt.term == yq)))))
                 return [(OK, s, Val(r, rty))]
             raise Unsupported(f"list comprehension over {it!r}")
+        return bind(self.eval(g.iter, st), k)
+
+    def e_SetComp(self, node, st):
+        """{elt for k, v in m.items() if cond}  /  {elt for x in some_set if cond}: a set defined by comprehension."""
+        if len(node.generators) != 1 or node.generators[0].is_async:
+            raise Unsupported("nested set comprehension")
+        g = node.generators[0]
+
+        def k(s, it):
+            items_map = getattr(it, "items_of", None)
+            if items_map is not None:
+                mty = items_map.ty
+                kq = z3.Const(fresh_name("sck"), mty.key.sort())
+                member = mty.opt.is_some(z3.Select(items_map.term, kq))
+                item = TupleVal([Val(kq, mty.key), Val(mty.opt.val(z3.Select(items_map.term, kq)), mty.val)])
+                qty = mty.key
+            elif isinstance(it, Val) and isinstance(it.ty, SetT):
+                kq = z3.Const(fresh_name("sck"), it.ty.elem.sort())
+                member = z3.Select(it.term, kq)
+                item = Val(kq, it.ty.elem)
+                qty = it.ty.elem
+            else:
+                raise Unsupported(f"set comprehension over {it!r}")
+            s2 = s.fork()
+            res = bind(self.assign_target(g.target, item, s2), lambda s3, _v: self.eval_many(list(g.ifs) + [node.elt], s3))
+            if len(res) != 1 or res[0][0] != OK:
+                raise Unsupported("branching set comprehension body")
+            vs = res[0][2]
+            cond = z3.And([member] + [truthy(c) for c in vs[:-1]])
+            elt = vs[-1]
+            if isinstance(elt, Val) and z3.eq(elt.term, kq):
+                return [(OK, s, Val(z3.Lambda([kq], cond), SetT(qty)))]
+            yq = z3.Const(fresh_name("scy"), elt.ty.sort())
+            return [(OK, s, Val(z3.Lambda([yq], z3.Exists([kq], z3.And(cond, elt.term == yq))), SetT(elt.ty)))]
         return bind(self.eval(g.iter, st), k)
 
     def e_Starred(self, node, st):
